@@ -535,7 +535,7 @@ pub fn property() -> Property {
             Box::new(Sub {
                 name: "statistics",
                 rule: "each case in a child process pinned (sched_setaffinity) to 1..16 CPUs, so that the engine starts that many workers; BPSK, 40 dB, no puncturing: the hard decision of the LLRs is the transmitted word; a scripted decoder (per decoder instance and frame: type and delay from a hash of the case seed; delays none / yield / 0-200 us sleeps / stalled even workers) returns it with e_t systematic bits flipped (parity bits too in some types), verdict v_t and iteration count B^t (B = 4096) for five frame types, so total_iterations decodes uniquely into counted frames per type and every reported number is predicted exactly (frames, frame errors, false decodes, systematic bit errors, correct-frame iterations, outer-code accounting with threshold 2, BER/FER/averages as ratios, stop exactly at max_frame_errors in 1..=40, counted <= produced per type); report stream: same identities, frame counts non-decreasing per point, last report = returned entry, 'finished' exactly once and last; all decoders built are dropped when run() returns; with one worker the counted set is exactly the script prefix; 1-3 Eb/N0 points, with/without outer-code threshold; non-trivial = >= 2 workers and >= 3 frame types counted; inner = frames decoded",
-                cases: |t| t.pick(1_500, 60_000),
+                cases: |t| t.pick(6_000, 150_000),
                 strategy,
                 check,
                 health: &[("workers>=2", 0.70), ("types>=3", 0.60)],
@@ -543,7 +543,7 @@ pub fn property() -> Property {
             Box::new(Sub {
                 name: "fault-injection",
                 rule: "failure-injecting configurations, each in a child process with a witness monitor: puncturing pattern that does not divide n (stage returns an error), interleaver columns / 8PSK symbol size that do not divide the transmitted length (stage panics in every worker), scripted decoder panicking in all / some workers at a generated frame; required: run() returns (Err for the block-size cases; Err, or statistics satisfying all identities, when only some workers died), does not itself panic, 'finished' is delivered once and last, all decoders dropped; a hang is a violation only with a positive witness (every decoder built has been dropped and run() has not returned 2 s later, or the final report of the last point was seen and run() has not returned 10 s later); a bare 60 s watchdog expiry is inconclusive (exit 2)",
-                cases: |t| t.pick(60, 3_000),
+                cases: |t| t.pick(200, 5_000),
                 strategy: inject_strategy,
                 check,
                 health: &[],
